@@ -15,6 +15,11 @@ func init() {
 // global session id for the pairs this shard owns.
 func forPairs(p *Plan, shard int, f func(id int, it *Item, ea, eb *Entry)) {
 	id := 0
+	// a large plan is judged in chunks (one TLC run each): chunk = [index, count]
+	chunkI, chunkN := 0, 1
+	if c, ok := p.Extra["chunk"].([]any); ok && len(c) == 2 {
+		chunkI, chunkN = int(c[0].(float64)), int(c[1].(float64))
+	}
 	voidE := &Entry{D: codec.Void(), NF: true}
 	for ii := range p.Items {
 		it := &p.Items[ii]
@@ -34,7 +39,7 @@ func forPairs(p *Plan, shard int, f func(id int, it *Item, ea, eb *Entry)) {
 				return
 			}
 			id++
-			if id%p.Shards == shard {
+			if id%p.Shards == shard && (chunkN <= 1 || (id/p.Shards)%chunkN == chunkI) {
 				f(id, it, ea, eb)
 			}
 		}
